@@ -219,6 +219,14 @@ def _stats(ck, evs, rejected, tier):
             if n == "perturbPath":
                 c["single_state_path"] += e["nBefore"] == 1
                 c["snap_threshold_0"] += (e.get("p") or {}).get("snapPm") == 0
+        elif n == "Crash" and e.get("routine") in per:
+            # a call that killed the process was made all the same (and has been rejected)
+            c = per[e["routine"]]
+            c["calls"] += 1
+            c["crashed"] += 1
+            if e["routine"] == "perturbPath":
+                c["single_state_path"] += e.get("nBefore") == 1
+                c["snap_threshold_0"] += (e.get("p") or {}).get("snapPm") == 0
         elif n == "HybridStart":
             best = None
             hyb["sessions"] += 1
@@ -235,6 +243,9 @@ def _stats(ck, evs, rejected, tier):
     ck.set("hybridization", dict(hyb))
     ck.set("input_paths", dict(srcs))
     # vacuity gates: every action taken, every guard exercised on a report where it can bite
+    # (a run that already carries violations claims no coverage: the gates are for passing runs)
+    if ck.violations:
+        return
     for r, c in per.items():
         if c["calls"] == 0:
             raise FrameworkError("vacuity gate: routine %s never called" % r)
